@@ -4,7 +4,7 @@
 From Coq Require Import NArith List Bool.
 From Verif Require Import Common.Bytes Codec.ChainId.
 From Verif Require Import P2P.Frame P2P.FrameProofs P2P.Handshake P2P.HandshakeProofs
-  P2P.Inbound P2P.InboundProofs P2P.BlockId P2P.BlockIdProofs.
+  P2P.Inbound P2P.InboundProofs P2P.BlockId P2P.BlockIdProofs P2P.Stream P2P.StreamProofs.
 Import ListNotations.
 Open Scope N_scope.
 
@@ -69,6 +69,16 @@ Theorem C18_read_all_roundtrip : forall max ms,
              read_all (S (length ms)) max bs = (ms, RErrHeader).
 Proof. exact read_all_roundtrip. Qed.
 Print Assumptions C18_read_all_roundtrip.
+
+(** A connection is a stream of frames: every message written by the writer of a connection
+    is read back by its reader, in order, and all of them are still what was written once the
+    whole stream has been read (messages are values in the model; the frame engine holds on to
+    the real Message objects of a stream and compares them after the last read). *)
+Theorem C18_read_stream_write_stream : forall max ms,
+  Forall (msg_wf max) ms ->
+  exists bs, write_stream max ms = Some bs /\ read_stream max bs = ms /\ read_stream_end max bs = RErrHeader.
+Proof. exact read_stream_write_stream. Qed.
+Print Assumptions C18_read_stream_write_stream.
 
 (** * Handshake (v200handshake.go, v033handshake.go, v032handshake.go, v030handshake.go) *)
 
